@@ -304,7 +304,8 @@ def check(repo):
                     continue
                 # a function may mutate its own parameter only if no caller passes an aliased object (checked at call sites);
                 # report at the outermost function whose *own parameter or global* is hit when that function is an entry point
-                entry = fi.cls is not None and (fi.cls is s.cls or fi.cls is s.config_cls)
+                entry = fi.cls is not None and ((fi.cls is s.cls and fi.name in SCHEME_METHODS) or
+                                                (fi.cls is s.config_cls and fi.name in ("__init__", "_parse_config", "from_dict", "from_json")))
                 if root[0] == "global":
                     if fi.key in REGISTRY_MEMO:
                         r1.note("%s: %s (accepted: %s)" % (fi.key, what, REGISTRY_MEMO[fi.key]))
